@@ -360,6 +360,8 @@ def random_sequence(rng):
 
 
 def run(sh):
+    from .. import instrument
+    instrument.install()      # call budget + which library functions were entered
     L = 3 if sh.tier == 'quick' else 4
     nrand = 6000 if sh.tier == 'quick' else 240000
     # exhaustive part: the first op (and base) selects the shard
